@@ -121,85 +121,98 @@ func VerifHarness_C03_replay() {
 		verifAssume(len(ws) == 1 && ws[0].seq == i)
 		orig[i] = ws[0]
 	}
-	N := H + 1
 
-	// ---- the ResendRequest
+	// the peer may ask for the same range again (its own recovery was interrupted): the second answer is as good as
+	// the first - replaying must not disturb what is stored
 	b := ndInt("BeginSeqNo", 1, H+2)
 	eSel := ndInt("EndSeqNo", 0, H+3)
-	e := eSel
-	if eSel == H+3 {
-		e = 999999
-	}
-	req := r.inbound("2", 5)
-	req.Body.SetInt(tagBeginSeqNo, b)
-	req.Body.SetInt(tagEndSeqNo, e)
-	r.app.toAppMayRefuse = true
-	r.s.fixMsgIn(r.s, req)
-	r.pump()
-	ws := r.drain()
+	N := H + 1
+	ask := func(reqSeq int, mayRefuse bool) int {
+		// ---- the ResendRequest
+		e := eSel
+		if eSel == H+3 {
+			e = 999999
+		}
+		req := r.inbound("2", reqSeq)
+		req.Body.SetInt(tagBeginSeqNo, b)
+		req.Body.SetInt(tagEndSeqNo, e)
+		r.app.toAppMayRefuse = mayRefuse
+		r.s.fixMsgIn(r.s, req)
+		r.pump()
+		ws := r.drain()
 
-	last := N - 1
-	hi := e
-	if (bs >= BeginStringFIX42 && e == 0) || (bs <= BeginStringFIX42 && e == 999999) || e >= N {
-		hi = last
-	}
-	if b > hi {
-		verifCase("empty-range")
-		verifAssert(len(ws) == 0, "nothing-sent-for-empty-range")
-		return
-	}
-	verifCase("range")
-	verifAssert(len(ws) >= 1, "range-answered")
-	next := b
-	for i := range ws {
-		w := &ws[i]
-		verifAssert(w.possDup, "every-reply-is-possdup")
-		verifAssert(w.seq == next, "coverage-contiguous-from-begin")
-		c03WellFormed(w, "reply")
-		if w.is("4") {
-			gf, ok := w.get(123)
-			verifAssert(ok && len(gf) == 1 && gf[0] == 'Y', "gap-fill-flag-set")
-			ns, ok := w.getInt(36)
-			verifAssert(ok && ns > w.seq, "gap-fill-moves-forward")
-			// a gap fill covers only administrative or refused messages
-			for q := w.seq; q < ns && q <= last; q++ {
-				_ = q
+		last := N - 1
+		hi := e
+		if (bs >= BeginStringFIX42 && e == 0) || (bs <= BeginStringFIX42 && e == 999999) || e >= N {
+			hi = last
+		}
+		if b > hi {
+			verifCase("empty-range")
+			verifAssert(len(ws) == 0, "nothing-sent-for-empty-range")
+			return 0
+		}
+		verifCase("range")
+		verifAssert(len(ws) >= 1, "range-answered")
+		next := b
+		for i := range ws {
+			w := &ws[i]
+			verifAssert(w.possDup, "every-reply-is-possdup")
+			verifAssert(w.seq == next, "coverage-contiguous-from-begin")
+			c03WellFormed(w, "reply")
+			if w.is("4") {
+				gf, ok := w.get(123)
+				verifAssert(ok && len(gf) == 1 && gf[0] == 'Y', "gap-fill-flag-set")
+				ns, ok := w.getInt(36)
+				verifAssert(ok && ns > w.seq, "gap-fill-moves-forward")
+				// a gap fill covers only administrative or refused messages
+				for q := w.seq; q < ns && q <= last; q++ {
+					_ = q
+				}
+				next = ns
+			} else {
+				verifAssert(w.is("D"), "only-application-messages-are-replayed")
+				verifAssert(persist, "no-replay-without-persistence")
+				if w.seq >= 1 && w.seq <= last {
+					o := &orig[w.seq]
+					verifAssert(isApp[w.seq], "administrative-messages-never-replayed")
+					ot, _ := o.get(52)
+					got, ok := w.get(122)
+					verifAssert(ok && verifBytesEq(got, ot), "origsendingtime-is-original-sendingtime")
+					verifAssert(verifBytesEq(c03Body(w), c03Body(o)), "body-byte-identical")
+				}
+				next = w.seq + 1
 			}
-			next = ns
-		} else {
-			verifAssert(w.is("D"), "only-application-messages-are-replayed")
-			verifAssert(persist, "no-replay-without-persistence")
-			if w.seq >= 1 && w.seq <= last {
-				o := &orig[w.seq]
-				verifAssert(isApp[w.seq], "administrative-messages-never-replayed")
-				ot, _ := o.get(52)
-				got, ok := w.get(122)
-				verifAssert(ok && verifBytesEq(got, ot), "origsendingtime-is-original-sendingtime")
-				verifAssert(verifBytesEq(c03Body(w), c03Body(o)), "body-byte-identical")
+		}
+		verifAssert(next == hi+1, "coverage-ends-at-min-end-last-plus-one")
+		if !persist {
+			verifAssert(len(ws) == 1 && ws[0].is("4"), "without-persistence-one-gap-fill")
+		}
+		// refused and administrative messages are covered by gap fills: every application message in range
+		// that was not refused appears exactly once
+		replayed := 0
+		for i := range ws {
+			if ws[i].is("D") {
+				replayed++
 			}
-			next = w.seq + 1
 		}
-	}
-	verifAssert(next == hi+1, "coverage-ends-at-min-end-last-plus-one")
-	if !persist {
-		verifAssert(len(ws) == 1 && ws[0].is("4"), "without-persistence-one-gap-fill")
-	}
-	// refused and administrative messages are covered by gap fills: every application message in range
-	// that was not refused appears exactly once
-	replayed := 0
-	for i := range ws {
-		if ws[i].is("D") {
-			replayed++
+		apps := 0
+		for q := b; q <= hi; q++ {
+			if q >= 1 && q <= last && isApp[q] {
+				apps++
+			}
 		}
-	}
-	apps := 0
-	for q := b; q <= hi; q++ {
-		if q >= 1 && q <= last && isApp[q] {
-			apps++
+		if persist {
+			verifAssert(replayed == apps-r.app.refusals, "every-unrefused-application-message-replayed-once")
 		}
+		return len(ws)
 	}
-	if persist {
-		verifAssert(replayed == apps-r.app.refusals, "every-unrefused-application-message-replayed-once")
+	n1 := ask(5, true)
+	if persist && n1 > 0 && ndBool("asked-twice") {
+		verifCase("asked-twice")
+		r.app.refusals = 0
+		n2 := ask(6, false)
+		verifAssert(n2 >= 1, "second-request-answered")
 	}
-	verifObserve("replies", len(ws))
+	verifObserve("replies", n1)
+
 }
